@@ -14,7 +14,7 @@ class C07(common.Prop):
     RULE = ("files of the C01 space (<= 2 KB quick, <= 40 KB thorough); a case is (file, reader kind, memo primed or not, window) and is "
             "evaluated at EVERY proper-prefix length of the file (quick: every cut; for files over 1.5 KB a stride plus all field "
             "boundaries) plus random suffixes of extra bytes; non-trivial = at least one cut inside the header and one inside each body block; "
-            "distinct by content hash")
+            "distinct by content hash " "A sample of the cuts of every case is also read into the PyTorch and TensorFlow bodies (unpack_torch / unpack_tensorflow): full reads must raise, windowed reads raise or equal the intact file's.")
     TRUSTED = ["Coq 8.16.1 kernel", "harness/translate_py.py", "extraction: ExtrOcamlBasic only; runner/driver.ml", "harness/posegen.py canonicalisers"]
     ASSUMPTIONS = ["struct.unpack_from / numpy ndarray-from-buffer raise exactly when offset+size exceeds the buffer (Block rule of base/Prog.v)",
                    "io.BytesIO read/seek as in base/Prog.v"]
